@@ -361,6 +361,126 @@ def _root_factory():
     return fn, on_path, collect
 
 
+CHAIN = ["s1", "s0", "base"]
+CACHE_DIR, POOL_DIR = "/mnt/swarm", "/mnt/shared"
+OBJ_TYPES = ["nets/vms/images", "nets/vms", "vms", "images"]
+
+
+def chain_files(obj_type: str, images: list[str], depth: int) -> list[str]:
+    """the files a cached state consists of (relative to a pool directory), from the documented layout"""
+    files = [f"vmid1/{img}/{st}.qcow2" for st in CHAIN[:depth] for img in images]
+    if obj_type in ("vms", "nets/vms"):
+        files.append("vmid1/s1.state")
+    return files
+
+
+def chain_classes(eq: Any, log: list[tuple[str, str, str]], depth: int):
+    from avocado_i2n.states.pool import QCOW2ImageTransfer
+
+    class Ops:
+        @staticmethod
+        def compare(cache_path: str, pool_path: str, params: Any) -> bool:
+            log.append(("compare", cache_path, pool_path))
+            return bool(eq[pool_path[len(POOL_DIR) + 1:]]) if pool_path.startswith(POOL_DIR + "/") else False
+
+        @staticmethod
+        def download(cache_path: str, pool_path: str, params: Any) -> None:
+            log.append(("download", cache_path, pool_path))
+
+        @staticmethod
+        def upload(cache_path: str, pool_path: str, params: Any) -> None:
+            log.append(("upload", cache_path, pool_path))
+
+    class Transfer(QCOW2ImageTransfer):
+        ops = Ops
+
+        @classmethod
+        def get_dependency(cls, state: str, params: Any) -> str:
+            i = CHAIN.index(state)
+            return CHAIN[i + 1] if i + 1 < depth else ""
+
+    return Transfer
+
+
+def chain_params(obj_type: str, images: list[str]):
+    from virttest.utils_params import Params
+
+    return Params({"object_id": "vmid1", "vms": "vm1", "images": " ".join(images), "object_type": obj_type, "swarm_pool": CACHE_DIR})
+
+
+def chain_judge(op: str, obj_type: str, images: list[str], depth: int, log: list[tuple[str, str, str]], result: Any, eq: Any) -> str | None:
+    files = chain_files(obj_type, images, depth)
+    want_op = "compare" if op == "compare" else ("download" if op == "down" else "upload")
+    for kind, cpath, ppath in log:
+        if kind != want_op:
+            return f"{op}: unexpected operation {kind} on {cpath}"
+        if not (cpath.startswith(CACHE_DIR + "/") and ppath.startswith(POOL_DIR + "/")) or cpath[len(CACHE_DIR):] != ppath[len(POOL_DIR):]:
+            return f"{op}: cache path {cpath} and pool path {ppath} are not the same file of the state"
+        if ppath[len(POOL_DIR) + 1:] not in files:
+            return f"{op}: {ppath} is not a file of the state ({files})"
+    touched = [p[len(POOL_DIR) + 1:] for _k, _c, p in log]
+    if op == "compare":
+        expected = all(bool(eq[f]) for f in files)
+        if bool(result) != expected:
+            return f"compare_chain answered {bool(result)} but the files of the state {files} are {'all equal' if expected else 'not all equal'} (compared only {touched})"
+    else:
+        if sorted(touched) != sorted(files):
+            return f"transfer_chain({op}) moved {touched}, the state consists of {files}"
+    return None
+
+
+def _chain_factory():
+    col = common.Collector()
+
+    def fn(eng: symx.Engine) -> Any:
+        op = ("compare", "down", "up")[eng.pick(3, "chain_op")]
+        obj_type = OBJ_TYPES[eng.pick(len(OBJ_TYPES), "object_type")]
+        images = ["image1", "image2"][: 1 + eng.pick(2, "n_images")]
+        depth = 1 + eng.pick(len(CHAIN), "chain_depth")
+        eq = LazyBits()
+        log: list[tuple[str, str, str]] = []
+        Transfer = chain_classes(eq, log, depth)
+        params = chain_params(obj_type, images)
+        if op == "compare":
+            result = Transfer.compare_chain("s1", CACHE_DIR, POOL_DIR, params)
+        else:
+            result = Transfer.transfer_chain("s1", CACHE_DIR, POOL_DIR, params, down=(op == "down"))
+        verdict = chain_judge(op, obj_type, images, depth, log, result, eq)
+        col.count("chains")
+        if op == "compare" and not result:
+            col.count("chains_invalid_cache")
+        if verdict:
+            desc = {"chain": True, "op": op, "object_type": obj_type, "images": images, "depth": depth, "equal": {k: bool(v) for k, v in eq.items()}}
+            raise symx.Violation(verdict, {"case": desc, "class": f"chain {op} {obj_type} depth {depth} images {len(images)}"})
+        return None
+
+    def on_path(eng: symx.Engine, outcome: str, payload: Any) -> None:
+        if outcome == "violation":
+            col.violations.append((payload.what, payload.detail["class"], payload.detail))
+
+    def collect() -> Any:
+        col.functions = set(common.TRACER.seen)
+        return col
+
+    return fn, on_path, collect
+
+
+def replay_chain(data: dict[str, Any]) -> tuple[bool, str]:
+    """Concrete re-run of the real compare_chain/transfer_chain with the recorded file equalities."""
+    case = data["case"]
+    eq = {f: case["equal"].get(f, True) for f in chain_files(case["object_type"], case["images"], case["depth"])}
+    eq.update(case["equal"])
+    log: list[tuple[str, str, str]] = []
+    Transfer = chain_classes(eq, log, case["depth"])
+    params = chain_params(case["object_type"], case["images"])
+    if case["op"] == "compare":
+        result = Transfer.compare_chain("s1", CACHE_DIR, POOL_DIR, params)
+    else:
+        result = Transfer.transfer_chain("s1", CACHE_DIR, POOL_DIR, params, down=(case["op"] == "down"))
+    verdict = chain_judge(case["op"], case["object_type"], case["images"], case["depth"], log, result, eq)
+    return (verdict is not None), (verdict or f"result={result} log={log}")
+
+
 def replay(data: dict[str, Any]) -> tuple[bool, str]:
     """Concrete re-run with plain strings for gateways/hosts realising the recorded classes."""
     from avocado_i2n.states.pool import SourcedStateBackend
@@ -450,7 +570,7 @@ def replay(data: dict[str, Any]) -> tuple[bool, str]:
 
 def run(ctx: common.Context) -> None:
     _cfg["max_sources"] = 3 if ctx.thorough else 2
-    for name, factory in (("sourced states", _factory), ("root states", _root_factory)):
+    for name, factory in (("sourced states", _factory), ("root states", _root_factory), ("cache validation chain", _chain_factory)):
         exhausted, stats, collected, err = symx.explore_parallel(factory, seed=ctx.seed, split_depth=4, deadline=ctx.deadline(120, 900))
         ctx.add_stats(stats)
         counters = common.merge_collected(ctx, collected)
@@ -461,11 +581,13 @@ def run(ctx: common.Context) -> None:
             ctx.exhaustive = False
         for c in collected:
             for what, cls, detail in c.violations:
-                ctx.report(f"C13 {cls}", what + f" [{ {k: v for k, v in detail['case'].items() if k in ('op', 'pool_scope', 'sources', 'classes', 'object_type')} }]", detail, replay if "sources" in detail["case"] else None)
+                ctx.report(f"C13 {cls}", what + f" [{ {k: v for k, v in detail['case'].items() if k in ('op', 'pool_scope', 'sources', 'classes', 'object_type')} }]", detail, replay if "sources" in detail["case"] else (replay_chain if "chain" in detail["case"] else None))
+        if name == "cache validation chain" and (counters.get("chains", 0) == 0 or counters.get("chains_invalid_cache", 0) == 0):
+            ctx.note_inconclusive("vacuous: no chain comparison with a differing file explored")
         if name == "sourced states" and (counters.get("with_permitted_source", 0) == 0 or counters.get("refused", 0) == 0):
             ctx.note_inconclusive("vacuous: no permitted source contacted or no refusal explored")
-    ctx.bounds = {"pool_scope": "all 16 subsets", "sources": f"0..{_cfg['max_sources']}, each ':path' or 'net:path' with path in shared_pool/swarm_pool/other", "gateways/hosts": "uninterpreted atoms (equality with the own worker symbolic)", "presence": "local and per source symbolic", "cache_valid": "symbolic", "root": "4 operations x 5 scope settings x 2 object types, local/pool root and image comparison symbolic"}
-    ctx.assumptions = ["transport (QCOW2ImageTransfer) and the local _show/_get/_set/_unset are logging stubs substituted through the class attributes", "closeness = (same gateway, same host, swarm_pool path), ties by list position"]
+    ctx.bounds = {"pool_scope": "all 16 subsets", "sources": f"0..{_cfg['max_sources']}, each ':path' or 'net:path' with path in shared_pool/swarm_pool/other", "gateways/hosts": "uninterpreted atoms (equality with the own worker symbolic)", "presence": "local and per source symbolic", "cache_valid": "symbolic in the sourced part; cache validation chain: real compare_chain/transfer_chain over object types nets/vms/images, nets/vms, vms, images x 1..2 images x backing chains of 1..3 states, equality of every file of the state symbolic", "root": "4 operations x 5 scope settings x 2 object types, local/pool root and image comparison symbolic"}
+    ctx.assumptions = ["transport (QCOW2ImageTransfer) and the local _show/_get/_set/_unset are logging stubs substituted through the class attributes (sourced part); in the chain part QCOW2ImageTransfer.compare_chain/transfer_chain are the real code, TransferOps.compare/download/upload are logging stubs with symbolic answers and get_dependency (qemu-img info) is a stub walking a fixed chain s1 -> s0 -> base", "a cached state consists of <vm id>/<image>/<state>.qcow2 for every image and every state of its backing chain, plus <vm id>/<state>.state for vm states (documented pool layout)", "closeness = (same gateway, same host, swarm_pool path), ties by list position"]
     ctx.coverage["explanation"] = "symbolic execution of the real pool backends: the real comparisons of gateways/hosts fork on atom equality, presence and cache validity are solver variables, all scope subsets enumerated; oracle = documented scope classification and closest-permitted-source rule"
     if True:
         chrun.run_crosshair(ctx, "ch_c13.py", per_condition_timeout=40)
